@@ -10,6 +10,7 @@ package rtmp
 
 import (
 	"io"
+	"math"
 	"sync"
 
 	"github.com/ossrs/go-oryx-lib/amf0"
@@ -274,6 +275,95 @@ func ens_WritePacket_balanced(v *Protocol) bool { return !prim_held(&v.input.ltr
 func ens_WritePacket_err(err error) bool { return spec_errKeepsRoot(err) }
 
 //@ assigns (*Protocol).WritePacket v.input.transactions[*], v.input.ltransactions, v.output.opt.chunkSize, ghost.wr(v.w), ghost.ioerr
+
+// ---------- C03/C04: command dispatch and the transaction table ----------
+
+func spec_cmdName(p []byte) (amf0.String, bool) {
+	var s amf0.String
+	if err := s.UnmarshalBinary(p); err != nil {
+		return "", false
+	}
+	return s, true
+}
+
+func spec_cmdTid(p []byte, name amf0.String) (amf0.Number, bool) {
+	var n amf0.Number
+	if name.Size() > len(p) {
+		return 0, false
+	}
+	if err := n.UnmarshalBinary(p[name.Size():]); err != nil {
+		return 0, false
+	}
+	return n, true
+}
+
+func oldspec_request(v *Protocol, tid amf0.Number) (amf0.String, bool) {
+	s, ok := v.input.transactions[tid]
+	return s, ok
+}
+
+//@ requires (*Protocol).parseAMFObject
+func req_parseAMF(v *Protocol) bool { return v.input.transactions != nil && !prim_held(&v.input.ltransactions) }
+
+// a command that is not a response is typed by its name alone
+//@ ensures (*Protocol).parseAMFObject C03.dispatch.command
+func ens_parseAMF_command(p []byte, pkt Packet, err error) bool {
+	name, ok := spec_cmdName(p)
+	if !ok {
+		return err != nil
+	}
+	if name == commandResult || name == commandError {
+		return true
+	}
+	if err != nil || pkt == nil {
+		return false
+	}
+	switch name {
+	case commandConnect:
+		_, is := pkt.(*ConnectAppPacket)
+		return is
+	case commandPublish:
+		_, is := pkt.(*PublishPacket)
+		return is
+	}
+	_, is := pkt.(*CallPacket)
+	return is
+}
+
+// a _result/_error is decoded as the response type of the request registered under its transaction id; with no such
+// request it is an error, never a guess; and the entry is consumed (exactly once)
+//@ ensures (*Protocol).parseAMFObject C03.dispatch.result C04.consume-once
+func ens_parseAMF_result(v *Protocol, p []byte, pkt Packet, err error) bool {
+	name, ok := spec_cmdName(p)
+	if !ok || !(name == commandResult || name == commandError) {
+		return true
+	}
+	tid, ok := spec_cmdTid(p, name)
+	if !ok {
+		return err != nil
+	}
+	req, had := oldspec_request(v, tid)
+	if !had || !(req == commandConnect || req == commandCreateStream) {
+		return err != nil
+	}
+	if err != nil || pkt == nil {
+		return false
+	}
+	if _, still := v.input.transactions[tid]; still {
+		return false
+	}
+	if req == commandConnect {
+		r, is := pkt.(*ConnectAppResPacket)
+		return is && r != nil && math.Float64bits(float64(r.TransactionID)) == math.Float64bits(float64(tid))
+	}
+	r, is := pkt.(*CreateStreamResPacket)
+	return is && r != nil && math.Float64bits(float64(r.TransactionID)) == math.Float64bits(float64(tid))
+}
+
+//@ ensures (*Protocol).parseAMFObject C04.balanced
+func ens_parseAMF_balanced(v *Protocol) bool { return !prim_held(&v.input.ltransactions) }
+
+//@ assigns (*Protocol).parseAMFObject v.input.transactions[*], v.input.ltransactions
 
 // ---------- C02: chunk basic header (5.3.1.1) ----------
 
